@@ -450,6 +450,8 @@ type FuncContract struct {
 	Acquires  []string // mutexes held on return
 	OnLock    []ModItem // state guarded by a mutex without a lockinv: havocked when the function first locks it
 	OnLockText []string
+	Callbacks []string  // func-typed parameters declared `callback p`
+	CbInvs    []*Clause // closure passed as a callback: invariants kept by every call
 	Asserts   []*Clause // "assert at call Callee#k: expr"
 	GhostSets []*Clause // ghost updates
 	GhostUpdates []*GhostUpdate
@@ -505,7 +507,7 @@ var clauseKeywords = map[string]bool{
 	"func": true, "on_lock": true, "extern": true, "requires": true, "requires_locked": true, "ensures": true, "modifies": true, "nopanic": true,
 	"loop": true, "specfunc": true, "ghost": true, "ghostsum": true, "ghost_set": true, "lockinv": true, "axiom": true, "trusted": true,
 	"pure": true, "inline": true, "held": true, "acquires": true, "assert": true, "package": true, "invariant": true, "lemma": true, "lemma_at": true, "unknown_calls_modify": true,
-	"assume_after": true,
+	"assume_after": true, "callback": true,
 }
 
 // splitLabel splits "label: expr" (label is a bare identifier followed by ':' but not '::').
@@ -632,7 +634,23 @@ func (cs *ContractSet) parseContractText(file, pkgPath string, lines []string, l
 			default:
 				cur.Ensures = append(cur.Ensures, c)
 			}
+		case "callback":
+			// callback p: the func-typed parameter p is called zero or more times and is the only way
+			// this function affects state beyond its own modifies clause (see callbacks.go)
+			if cur == nil {
+				return fmt.Errorf("%s:%d: callback outside func", file, it.line)
+			}
+			cur.Callbacks = append(cur.Callbacks, strings.TrimSpace(rest))
 		case "invariant":
+			if curLock == nil && cur != nil {
+				// invariant of a closure passed as a callback: holds before and after each of its calls
+				c, err := mk("cbinv", rest, it.line)
+				if err != nil {
+					return err
+				}
+				cur.CbInvs = append(cur.CbInvs, c)
+				continue
+			}
 			if curLock == nil {
 				return fmt.Errorf("%s:%d: invariant outside lockinv", file, it.line)
 			}
